@@ -328,9 +328,9 @@ func runSends(e *exec) {
 						chk.bad("ns-slla", "source link-layer option %v, want %s", f.ND.SourceLLA, own)
 					case f.IP6.Src != src.IP:
 						chk.bad("ns-source", "sent from %s, want the caller's source %s", f.IP6.Src, src.IP)
-					// (the hop limit of link-local NDP is checked by the reference decoder on every frame; an NS
-					// to a global address goes out with 64, which RFC 4861 also forbids but the statement
-					// does not cover: an observation, not a violation)
+						// (the hop limit of link-local NDP is checked by the reference decoder on every frame; an NS
+						// to a global address goes out with 64, which RFC 4861 also forbids but the statement
+						// does not cover: an observation, not a violation)
 					}
 				})
 			}
